@@ -17,7 +17,8 @@ EXPLANATION = (
     ' Third round: N / NP ruled out on every result path of backward crossed composition; the meaning of _is_punct (truth table and the lettered names it accepts, read through module constants and imports); Functor.__xor__ as used by scan for twice-bound variables.'
     ' Fourth round: every rule that is not a unification schema (conjunction, punctuation, quote / bracket, the comma type-changing rules) yields its result exactly when its premises hold, judged as a decision function over its elementary tests (R3.4 decision).'
     ' Fifth round: the bindings reader replaces bound features as a whole and nothing else; every shared variable position is tested, independently of earlier bindings.'
-    ' Sixth and seventh round: _is_type_raised as a truth table (R3.4); category texts hoisted into module-level Category.parse constants are read in place.')
+    ' Sixth and seventh round: _is_type_raised as a truth table (R3.4); category texts hoisted into module-level Category.parse constants are read in place.'
+    " Eighth round: no rule kept from a loop reads the loop variable late (R3.5); z.functor(l, r) keeps z's own slash (R3.1).")
 TRUSTED = ['CPython ast', 'schema table in sa/rules_grammar.py (from the property statement)', 'independent pattern parser sa/symcat.py']
 
 R = {'schema': 'R3.1', 'modifier': 'R3.2', 'restrict': 'R3.3', 'nonschema': 'R3.4', 'labels': 'R3.5', 'complete': 'R3.6'}
